@@ -633,6 +633,10 @@ func (r *Runner) replayLockCase(l *Line) lineResult {
 					res.fails = w.fails
 					return res
 				}
+				if dead := c.effectSchedules(r, l, n, prevN, opHits, fail, &res); dead {
+					res.fails = w.fails
+					return res
+				}
 			}
 		}
 	}
